@@ -658,7 +658,8 @@ func getitems() {
 var modsB = map[string]string{
 	"a.risor": "import b\ntick(\"a\")\nx := \"a.x0\"\n" + modAPI +
 		"func bx() {\n\treturn b.getx()\n}\nfunc bsetx(v) {\n\tb.setx(v)\n}\n",
-	"b.risor": "tick(\"b\")\nx := \"b.x0\"\n" + modAPI,
+	// (a variable of a nested block with the name of the module's own x: the attribute b.x is the module's)
+	"b.risor": "tick(\"b\")\nx := \"b.x0\"\nif true {\n\tx := \"b.block\"\n}\n" + modAPI,
 	"d/c.risor": "import b\ntick(\"d/c\")\nx := \"d/c.x0\"\n" + modAPI +
 		"func bx() {\n\treturn b.getx()\n}\nfunc bsetx(v) {\n\tb.setx(v)\n}\n",
 	"d/b.risor": "tick(\"d/b\")\nx := \"d/b.x0\"\n" + modAPI, // shares its short name with the top-level b
